@@ -87,6 +87,49 @@ func judgeC13Inner(rec *stats.Rec, c c13Case, cli string) (string, string) {
 				return "name-exclude|" + c.Token, "excluded name still selected"
 			}
 		}
+	case "name-with-sources":
+		// a listed name stays an acceptable name whatever source options accompany it - also when they drop its lint
+		own := lint.LintSource(lintSourceOf(c.Token))
+		var other lint.LintSource
+		for _, s := range g.Sources() {
+			if s != own && (other == "" || s < other) {
+				other = s
+			}
+		}
+		for vi, o := range []lint.FilterOptions{
+			{IncludeNames: []string{padded}, ExcludeSources: lint.SourceList{own}},
+			{IncludeNames: []string{padded}, IncludeSources: lint.SourceList{other}},
+			{ExcludeNames: []string{padded}, IncludeSources: lint.SourceList{other}},
+			{ExcludeNames: []string{padded}, ExcludeSources: lint.SourceList{own}},
+			{IncludeNames: []string{padded}, IncludeSources: lint.SourceList{own}},
+		} {
+			r, err := g.Filter(o)
+			if err != nil {
+				return "name-with-sources|" + c.Token, fmt.Sprintf("listed name rejected when given together with source options (variant %d: include %v exclude %v, sources +%v -%v): %v", vi, o.IncludeNames, o.ExcludeNames, o.IncludeSources, o.ExcludeSources, err)
+			}
+			// what the source options alone select, minus / intersected with the name
+			so := lint.FilterOptions{IncludeSources: o.IncludeSources, ExcludeSources: o.ExcludeSources}
+			rs, err := g.Filter(so)
+			if err != nil {
+				continue
+			}
+			in := false
+			for _, x := range rs.Names() {
+				in = in || x == c.Token
+			}
+			want := len(rs.Names())
+			if len(o.IncludeNames) > 0 {
+				want = 0
+				if in {
+					want = 1
+				}
+			} else if in {
+				want--
+			}
+			if got := len(r.Names()); got != want {
+				return "name-with-sources-selection|" + c.Token, fmt.Sprintf("variant %d selects %d lints, the documented rule gives %d", vi, got, want)
+			}
+		}
 	case "source-fromstring":
 		var s lint.LintSource
 		s.FromString(padded)
@@ -364,6 +407,7 @@ func TestC13(t *testing.T) {
 		p := pads[(i+int(verifSeed()))%len(pads)]
 		run(c13Case{What: "name-include", Token: n, Pad: p})
 		run(c13Case{What: "name-exclude", Token: n, Pad: p})
+		run(c13Case{What: "name-with-sources", Token: n, Pad: p})
 		if (i+int(verifSeed()))%cliNameStride == 0 {
 			run(c13Case{What: "cli-name", Token: n, Pad: strings.ReplaceAll(p, "\t", " ")})
 		}
